@@ -295,7 +295,10 @@ class ScriptedServerWorld(ServerWorld):
             self.n_open += 1
             req.open_mode = mode
             if mode in ('refuse', 'status'):
-                conn._s2c(('refuse', o.get('status', 403), b''))
+                # 'refuse': the TCP connection is not even made (status 0);
+                # 'status': an HTTP answer other than 101
+                conn._s2c(('refuse', 0 if mode == 'refuse' else
+                           o.get('status', 403), b''))
                 return
             conn.accepted = True
             conn._s2c(('accept',))
@@ -330,7 +333,8 @@ class ScriptedServerWorld(ServerWorld):
         s = self.sessions.get(sid)
         probe = self.script.get('probe', 'right')
         if s is None or s.closed or probe == 'refuse':
-            conn._s2c(('refuse', 400, b''))
+            conn._s2c(('refuse', self.script.get('probe_status', 400)
+                       if probe == 'refuse' else 400, b''))
             return
         s.upgrade_attempts.append({'conn': conn, 't': self.k.now,
                                    'frames': []})
